@@ -7,6 +7,7 @@ import (
 	"os"
 	"sort"
 	"strings"
+	"sync/atomic"
 	"time"
 
 	"github.com/lidofinance/dc4bc/client/api/dto"
@@ -121,6 +122,13 @@ func junkify(rec *world.Recording, L []storage.Message, foreignReinit bool) []st
 	var out []storage.Message
 	for i, m := range L {
 		out = append(out, m)
+		if !foreignReinit && i == 1 {
+			// (C20's dump) a forged decline in the last participant's name, signed with another
+			// key: every node of the original ceremony refused it
+			last := len(rec.W.Nodes) - 1
+			decl := requests.SignatureProposalParticipantRequest{ParticipantId: last, CreatedAt: world.T0}
+			out = append(out, world.SignedMessage(rec.Round, "event_sig_proposal_decline_by_participant", world.MustJSON(decl), rec.W.Nodes[last].Name, rec.W.Nodes[0].KeyPair.Priv, ""))
+		}
 		if foreignReinit && i == 1 {
 			// an (unauthenticated, by design) reinitialisation message of ANOTHER, fresh round: it
 			// switches signature verification off while it is handled - afterwards the badly
@@ -401,7 +409,8 @@ func c08(tier string, args []string) int {
 			r.Infra("file storage: %v", err)
 		}
 		writer, _ := file_storage.NewFileStorage(dir+"/board.log", dir+"/board.lock")
-		realNode, err := world.NewNodeOverStorage(rec.W.Nodes[v].Name, rec.W.Nodes[v].KeyPair, ls, fsBoard)
+		counted := &countedStorage{Storage: fsBoard}
+		realNode, err := world.NewNodeOverStorage(rec.W.Nodes[v].Name, rec.W.Nodes[v].KeyPair, ls, counted)
 		if err != nil {
 			r.Infra("node: %v", err)
 		}
@@ -413,8 +422,15 @@ func c08(tier string, args []string) int {
 				r.Infra("file board send: %v", err)
 			}
 			if k%3 == 2 || k == len(L)-1 {
+				before := atomic.LoadInt64(&counted.done)
 				if err := realNode.TickPlain(); err != nil {
 					r.Infra("poll loop: %v", err)
+				}
+				// TickPlain returns when its third tick was TAKEN; wait until that tick has read
+				// the board, so that the harness's next append never overlaps a read (this part
+				// compares stores, it is not a concurrency exploration)
+				for i := 0; atomic.LoadInt64(&counted.done) < before+3 && i < 50000; i++ {
+					time.Sleep(100 * time.Microsecond)
 				}
 			}
 		}
@@ -536,4 +552,15 @@ func c08(tier string, args []string) int {
 	r.Set("rule", "states = (log, position) pairs and (i,j) grid points; transitions = real Poll ticks: every single message twice and once with the clock +3 days, every (from,to) batch, a process restart at every position, reset+replay with an ignore list, and every step of the two-round interleaving grid; oracle: one node state per position (byte-exact for batching, public time-free projection across nodes, restarts, clock shift, interleavings)")
 	var _ ed25519.PublicKey
 	return finish(r)
+}
+
+// countedStorage counts completed board reads (pass-through otherwise).
+type countedStorage struct {
+	storage.Storage
+	done int64
+}
+
+func (c *countedStorage) GetMessages(offset uint64) ([]storage.Message, error) {
+	defer atomic.AddInt64(&c.done, 1)
+	return c.Storage.GetMessages(offset)
 }
